@@ -141,6 +141,34 @@ func (c *Ctx) builderTable(fn *ssa.Function) *builderInfo {
 			}
 		}
 	}
+	// calls that write memory the builder did not allocate (the container itself, an argument)
+	for _, b := range fn.Blocks {
+		for _, ins := range b.Instrs {
+			ci, ok := ins.(ssa.CallInstruction)
+			if !ok {
+				continue
+			}
+			if _, isBuiltin := ci.Common().Value.(*ssa.Builtin); isBuiltin {
+				continue
+			}
+			for _, m := range c.CalleesAt(ci).Mod {
+				ms := c.ModSet(m)
+				if len(ms) == 0 {
+					continue
+				}
+				for _, a := range ci.Common().Args {
+					if !isPointerLike(a.Type()) && !isSliceType(a.Type()) {
+						continue
+					}
+					if freshRoot(a) {
+						continue
+					}
+					bi.StoresEx = append(bi.StoresEx, fmt.Sprintf("calls %s at %s with memory the builder did not allocate (%s); the callee writes %s", c.FuncName(m), c.InstrPos(ins), a.Name(), strings.Join(ms.sorted(), ", ")))
+					break
+				}
+			}
+		}
+	}
 	bi.Obj = obj
 	if obj == nil {
 		return bi
